@@ -3,7 +3,7 @@
 P=$(readlink -f "$1"); cd /verif; echo "== neutral change: $P"
 git -C /repo diff --quiet || { echo "/repo dirty"; exit 2; }
 git -C /repo apply "$P" || exit 2
-trap 'git -C /repo checkout -- .' EXIT
+trap 'git -C /repo apply -R "$P"; git -C /repo checkout -- .' EXIT
 timeout 300 sh tools/run_baseline.sh >/dev/null 2>&1 && echo "baseline PASS" || echo "baseline FAIL"
 for id in $(python3 -c "import json;print(' '.join(c['property_id'] for c in json.load(open('MANIFEST.json'))['checks']))"); do
   out=$(./check run $id --tier quick 2>&1); rc=$?
